@@ -141,7 +141,10 @@ fn apply_diff_map<const N: usize, Key, Diff, Target, Name, Mapping>(
 			Action::Add(b) => {
 				let mut info = Mapping::from_key(key.clone());
 
-				info.get_names_mut()[target_namespace] = Some(b.clone());
+				// goes through the same checks as a name added to an existing entry (in particular: not in the first namespace)
+				info.get_names_mut()
+					.change_name(target_namespace, None, Some(b))
+					.with_context(|| anyhow!("cannot apply action {:?} for new key {key:?}", diff.get_node_info()))?;
 
 				let node = Target::new(info);
 
